@@ -70,13 +70,6 @@ theorem C14_confined_ok {τ : Trace} {x : Loc} {t : Tid} {pub : Nat} (h : Confin
   intro ⟨hxi, hxj, htid, _, _⟩
   exact htid (by rw [h i hpi hxi, h j hpj hxj])
 
-/-- the four disciplines the table check recognises -/
-inductive Discipline (τ : Trace) (x : Loc) (pub : Nat) : Prop where
-  | locked (m : Mutex) : Locked τ x m pub → Discipline τ x pub
-  | immutable : Immutable τ x pub → Discipline τ x pub
-  | atomic : AllAtomic τ x pub → Discipline τ x pub
-  | confined (t : Tid) : Confined τ x t pub → Discipline τ x pub
-
 /-- **No data race on a disciplined location.**  `pub` is the publication point of `x`: accesses before
 it are initialisation and are assumed to happen-before every later access by another thread
 (discharged by `C14_fork_publishes` / `C14_init_then_publish` for `go`, channel or lock publication).
@@ -102,6 +95,19 @@ theorem C14_no_race_of_discipline {τ : Trace} {sw : Nat → Nat → Prop} (wf :
     by_cases hpj : pub ≤ j
     · exact hnhb (init i j hip hpj hxi hxj htid)
     · exact htid (initOwner i j hij (Nat.lt_of_not_le hpj) hxi hxj)
+
+/-- **From the table to data-race freedom.**  If the class's rows pass the table check and the run is
+an instance of those rows for location `x` (`Respects`: the trusted link between the extracted table
+and real executions), then `x` has no data race. -/
+theorem C14_drf_of_table {τ : Trace} {sw : Nat → Nat → Prop} (wf : MutexWF τ)
+    {rows : List Gen.AccessRow} {x : Loc} {pub : Nat} {inst : Nat → Mutex} {thr : Nat → Tid}
+    (hok : classOk rows = true) (hr : Respects τ rows x pub inst thr)
+    (init : ∀ i j, i < pub → pub ≤ j → (τ i).ev.loc = some x → (τ j).ev.loc = some x →
+      (τ i).tid ≠ (τ j).tid → HB τ sw i j)
+    (initOwner : ∀ i j, i < j → j < pub → (τ i).ev.loc = some x → (τ j).ev.loc = some x →
+      (τ i).tid = (τ j).tid) :
+    ∀ i j, ¬ Race τ sw x i j :=
+  C14_no_race_of_discipline wf (discipline_of_classOk hok hr) init initOwner
 
 /-! ### Non-vacuity: a concrete run with two critical sections -/
 
@@ -166,12 +172,72 @@ example : Conflict exRun 3 1 4 := by
   intro h
   exact absurd h.1 (by decide)
 
+/-- two table rows (a locked write, a locked read) of which `exRun` is an instance -/
+def exRows : List Gen.AccessRow :=
+  [⟨"writer", 0, true, false, [0], [], false, false, true, 0⟩,
+   ⟨"reader", 0, false, false, [0], [], false, false, true, 0⟩]
+
+example : classOk exRows = true := by decide
+
+theorem C14_exRun_respects : Respects exRun exRows 3 0 (fun _ => 7) (fun _ => 0) := by
+  intro k _ hx
+  match k, hx with
+  | 0, hx => simp [exRun, Ev.loc] at hx
+  | 1, _ =>
+    refine ⟨⟨"writer", 0, true, false, [0], [], false, false, true, 0⟩, by simp [exRows], rfl, rfl, rfl, ?_, ?_, ?_⟩
+    · intro m _
+      exact ⟨0, by decide, rfl, fun b h1 h2 => absurd h2 (by omega)⟩
+    · intro m hm
+      cases hm
+    · intro h
+      exact absurd rfl h
+  | 2, hx => simp [exRun, Ev.loc] at hx
+  | 3, hx => simp [exRun, Ev.loc] at hx
+  | 4, _ =>
+    refine ⟨⟨"reader", 0, false, false, [0], [], false, false, true, 0⟩, by simp [exRows], rfl, rfl, rfl, ?_, ?_, ?_⟩
+    · intro m _
+      exact ⟨3, by decide, rfl, fun b h1 h2 => absurd h2 (by omega)⟩
+    · intro m hm
+      cases hm
+    · intro h
+      exact absurd rfl h
+  | 5, hx => simp [exRun, Ev.loc] at hx
+  | (n + 6), hx => simp [exRun, Ev.loc] at hx
+
+/-- `C14_drf_of_table` applies to a concrete run and concrete rows (all accesses are post-publication here) -/
+example : ∀ i j, ¬ Race exRun (fun _ _ => False) 3 i j :=
+  C14_drf_of_table C14_exRun_wf (by decide) C14_exRun_respects
+    (fun i _ h => absurd h (Nat.not_lt_zero i)) (fun _ j _ h => absurd h (Nat.not_lt_zero j))
+
 /-- without the lock the same two accesses are a race (the theorem's hypothesis is needed) -/
 def exRacy : Trace := fun k =>
   match k with
   | 0 => ⟨0, .wr 3⟩
   | 1 => ⟨1, .rd 3⟩
   | _ => ⟨0, .nop⟩
+
+theorem C14_unlocked_pair_races : Race exRacy (fun _ _ => False) 3 0 1 := by
+  refine ⟨by decide, ⟨rfl, rfl, by decide, Or.inl rfl, fun h => absurd h.1 (by decide)⟩, ?_⟩
+  -- no happens-before edge can start at position 0 of this run
+  have key : ∀ i j, HB exRacy (fun _ _ => False) i j → i = 0 → j = 1 → False := by
+    intro i j h
+    induction h with
+    | po hlt htid =>
+      intro hi hj; subst hi; subst hj
+      simp [exRacy] at htid
+    | lock _ hrel _ _ =>
+      intro hi _; subst hi
+      simp [exRacy] at hrel
+    | fork _ hf _ =>
+      intro hi _; subst hi
+      simp [exRacy] at hf
+    | sw _ h => intro _ _; exact h
+    | @trans a b c h1 h2 _ _ =>
+      intro hi hj; subst hi; subst hj
+      have l1 := HB.lt h1
+      have l2 := HB.lt h2
+      omega
+  exact fun h => key 0 1 h rfl rfl
 
 /-! ### The obligation on the extracted table -/
 
@@ -186,5 +252,18 @@ def failingClassNames : List String :=
 
 /-- every location class of the current source is under one of the four disciplines -/
 theorem C14_table_ok : tableOk Gen.accessByClass = true := by decide +kernel
+
+/-- the chain closed on the current source: every class of the extracted table, in every run that is
+an instance of its rows, is free of data races -/
+theorem C14_generated_table_drf {τ : Trace} {sw : Nat → Nat → Prop} (wf : MutexWF τ)
+    {rows : List Gen.AccessRow} (hrows : rows ∈ Gen.accessByClass)
+    {x : Loc} {pub : Nat} {inst : Nat → Mutex} {thr : Nat → Tid}
+    (hr : Respects τ rows x pub inst thr)
+    (init : ∀ i j, i < pub → pub ≤ j → (τ i).ev.loc = some x → (τ j).ev.loc = some x →
+      (τ i).tid ≠ (τ j).tid → HB τ sw i j)
+    (initOwner : ∀ i j, i < j → j < pub → (τ i).ev.loc = some x → (τ j).ev.loc = some x →
+      (τ i).tid = (τ j).tid) :
+    ∀ i j, ¬ Race τ sw x i j :=
+  C14_drf_of_table wf (classOk_of_tableOk C14_table_ok rows hrows) hr init initOwner
 
 end KcpVerif.Props
